@@ -108,7 +108,7 @@ func genChain(r *rand.Rand, steps int) ref.Prog {
 				b.add(ref.Instr{Op: "broadcast", In: []int{x}, Shape: ts[r.Intn(len(ts))]})
 			}
 		case 10:
-			b.add(ref.Instr{Op: []string{"scale", "tanh", "sin"}[r.Intn(3)], In: []int{x}, F: 1.5})
+			b.add(ref.Instr{Op: []string{"scale", "tanh", "sin", "scale"}[r.Intn(4)], In: []int{x}, F: []float64{1.5, -2, -1, 1, -0.5, 0}[r.Intn(6)]})
 		case 11:
 			cands := b.sameShape(allowed, v.Shape, -1)
 			b.add(ref.Instr{Op: []string{"add", "sub", "mul", "elmax"}[r.Intn(4)], In: []int{x, cands[r.Intn(len(cands))]}})
